@@ -112,7 +112,10 @@ namespace Givaro {
 
         Domain& setdomain(const Domain& D)
         {
-            return _domain = D;
+            _domain = D;
+            // the constants are polynomials over the entry domain: rebuild them, as the constructor does
+            zero = Rep(0, _domain.zero); one = Rep(1, _domain.one); mOne = Rep(1, _domain.mOne);
+            return _domain;
         }
 
         // -- Return the domain of the entries
@@ -128,7 +131,7 @@ namespace Givaro {
 
         Domain& setDomain(const Domain& D)
         {
-            return _domain = D;
+            return setdomain(D);
         }
 
         // -- Constantes
